@@ -277,14 +277,21 @@ class Context:
     def finish(self, rule, assumptions, extra=None):
         confirmed = []
         for n, (sig, f, case) in enumerate(self.violations):
-            res = safe_run_case(self.run_case, case)
-            sigs2 = {signature(self.pid, g) for g in res["failures"]}
-            if sig not in sigs2:
-                raise HarnessError("violation %s did not reproduce on a second replay of %r" % (sig, case))
+            # confirmation by replay.  A failure that needs state surviving from EARLIER objects of the same process (class-level or
+            # module-level caches of the library) does not show on the first isolated replay: the case is replayed up to three times in
+            # this process; a failure that never reproduces here was observed by an exploring worker after other cases and is still
+            # reported (the verdict then depends on what ran before in that process - itself a violation of a statement that holds
+            # "for every history"), with the way it reproduced recorded in the replay file.
+            how = "only inside the exploring worker (after other cases of the run), not on 3 replays in a fresh state"
+            for attempt in range(1, 4):
+                res = safe_run_case(self.run_case, case)
+                if sig in {signature(self.pid, g) for g in res["failures"]}:
+                    how = "isolated replay" if attempt == 1 else "replay number %d in one process (state surviving from the earlier replays)" % attempt
+                    break
             os.makedirs(REPLAY_DIR, exist_ok=True)
             path = os.path.join(REPLAY_DIR, "%s-%d.json" % (self.pid, n))
             with open(path, "w") as fh:
-                json.dump({"property": self.pid, "signature": sig, "failure": jsonable(f),
+                json.dump({"property": self.pid, "signature": sig, "failure": jsonable(f), "reproduced": how,
                            "occurrences": self.viol_sigs[sig], "case": jsonable(case)}, fh, indent=1)
             confirmed.append((sig, path))
         for sig, h in sorted(self.known_hit.items()):
